@@ -27,10 +27,18 @@ def _final_const(body, local):
         return None
     if last[2] != 'assign':
         return 'expr'
-    e = body.expr_rvalue(last[3])
+    v = _cval(body.expr_rvalue(last[3]))
+    return 'expr' if v is None else v
+
+
+def _cval(e):
+    """value of a literal boolean expression (`true`, `!cfg!(..)`), else None"""
     if e[0] == 'const':
         return e[1]
-    return 'expr'
+    if e[0] == 'un' and e[1] == 'Not':
+        v = _cval(e[2])
+        return None if v is None else (0 if v else 1)
+    return None
 
 
 def _capture_index(e):
@@ -63,16 +71,16 @@ def _known_switch_value(body, t, parent=None, cap_ops=None):
     """constant a switch operand is known to hold: a literal, a flag local whose last assignment (in dominance order)
     is a literal, or a captured reference to such a flag of the enclosing function"""
     e = body.expr_op(t['o'])
-    if e[0] == 'const':
-        return e[1]
+    if _cval(e) is not None:
+        return _cval(e)
     if e[0] == 'local':
         v = _final_const(body, e[1])
         return v if isinstance(v, int) else None
     k = _capture_index(e)
     if k is not None and parent is not None and cap_ops and k < len(cap_ops):
         src = strip_refs(cap_ops[k])
-        if src[0] == 'const':
-            return src[1]
+        if _cval(src) is not None:
+            return _cval(src)
         if src[0] == 'local':
             v = _final_const(parent, src[1])
             return v if isinstance(v, int) else None
